@@ -148,7 +148,7 @@ Section Lift.
     assert (Hfr_formal : ~ formal_of m fr) by (intros H; specialize (HF fr (or_intror (or_introl H))); lia).
     assert (Hfr_init : ~ In fr (map fst (all_inits m))) by (intros H; specialize (HF fr (or_intror (or_intror H))); lia).
     assert (Hyfr : y <> fr) by (intros ->; auto).
-    cbv zeta. simpl fst. simpl snd. pose proof (lift_eq k y fr t m Eyo) as Heq. Set Printing All. Show. rewrite Heq.
+    cbv zeta. simpl fst. simpl snd. pose proof (lift_eq k y fr t m Eyo) as Heq. unfold vid in Heq |- *. rewrite Heq. clear Heq.
     set (m' := rw (fun n => n) (sub1 y fr) (fun n => negb (has_key k n)) (fun _ => add_init_at k fr t) m).
     assert (Hall' : all_inits m' = flat_map (add_init_at k fr t) (graphs_of m)).
     { unfold all_inits, m', rw. apply flat_map_mk2; reflexivity. }
@@ -164,7 +164,7 @@ Section Lift.
     assert (Hlk_fr : alookup (all_inits m') fr = Some t).
     { rewrite Hall'. apply alookup_add_fresh; [exact Hfr_init | exact Hown]. }
     assert (P : Pres m m').
-    { apply rw_pres_gen; auto using tr_ok_id.
+    { apply rw_pres_gen; auto using tr_ok_id; fold m'.
       - rewrite Hall'. apply NoDup_keys_add; [apply (wf_inits_nodup m HW) | exact Hfr_init | apply (wf_outs m HW) | apply (wf_nonempty m HW)].
       - intros u Hu. destruct (Hkeys' u Hu) as [->|Hu2]; [exact Hfr_out | exact (wf_init_prod m HW u Hu2)].
       - intros u Hf. unfold sub1. destruct (N.eqb u y) eqn:E; [|reflexivity]. apply N.eqb_eq in E. subst u.
@@ -180,7 +180,7 @@ Section Lift.
         + apply N.eqb_eq in E. subst v. right. right. right.
           assert (n0 = n). { eapply producer_unique; eauto. rewrite Eo. left. reflexivity. } subst n0.
           rewrite Eo in Hidx. simpl in Hidx. rewrite N.eqb_refl in Hidx. injection Hidx as <-.
-          repeat split; auto. { rewrite Eo. reflexivity. } { apply HN. right. exact Ec. }
+          split; [reflexivity|]. split; [exact Hins|]. split; [rewrite Eo; reflexivity|]. split; [apply HN; right; exact Ec|].
           exists t. split; [|split].
           * intros aenv subs. rewrite Ea. simpl. apply (interp_constant (n_op n) k _ _ t subs Ec El).
           * unfold sub1. rewrite N.eqb_refl. exact Hlk_fr.
@@ -210,10 +210,10 @@ Section Lift.
     generalize (rec_nodes fuel m GMain) as keys. intros keys.
     assert (G : forall keys m0 fr0, WF m0 -> NoOpFunc m0 -> ConstOK m0 -> FreshOK m0 fr0 ->
                 Pres m0 (fst (fold_left (try_lift_constant lift_all size_limit other) keys (m0, fr0)))).
-    { clear. induction keys as [|rk keys IH]; intros m0 fr0 HW HN HC HF; simpl; [apply Pres_refl; assumption|].
-      destruct (lift_step m0 fr0 rk HW HN HC HF) as [P [HC' HF']].
-      destruct (try_lift_constant lift_all size_limit other (m0, fr0) rk) as [m1 fr1] eqn:E. simpl in *.
-      eapply Pres_trans; [exact P|]. destruct P as [HW1 HN1 _ _ _ _]. apply IH; assumption. }
+    { clear HW HN HC HF. intros keys0. induction keys0 as [|rk keys0 IH]; intros m0 fr0 HW HN HC HF; [apply Pres_refl; assumption|].
+      cbn [fold_left]. pose proof (lift_step m0 fr0 rk HW HN HC HF) as Hs. cbv zeta in Hs.
+      remember (try_lift_constant lift_all size_limit other (m0, fr0) rk) as st eqn:E. destruct st as [m1 fr1]. simpl in Hs.
+      destruct Hs as [P [HC' HF']]. eapply Pres_trans; [exact P|]. destruct P as [HW1 HN1 _ _ _ _]. apply IH; assumption. }
     apply G; assumption.
   Qed.
 End Lift.
